@@ -375,6 +375,7 @@ func runC11(p *eng.Prog, r *eng.Report, tier string) {
 	jidEqualRule(c, "C11.6")
 	c11LocalLenIsEnforcedLen(c, "C11.11")
 	c11NoRawPartAppended(c, "C11.12")
+	c11ChecksSeeTheEnforcedBuffer(c, "C11.13")
 	st := c.fn("C11.6", "jid", "JID.String")
 	if st != nil {
 		g := st.Graph()
@@ -876,4 +877,98 @@ func c11NoRawPartAppended(c *cx, id string) {
 		}
 	}
 	c.r.Note("%s: %d appends of raw parameters in the jid constructors (expected 0)", id, n)
+}
+
+// c11ChecksSeeTheEnforcedBuffer (C11.13): the length and emptiness checks
+// (localChecks / resourceChecks) look at the buffer the PRECIS profile wrote
+// into. Every variable that receives the buffer result of a
+// precis.<profile>.Append call in New / WithLocal / WithResource is the
+// variable a *Checks argument is sliced from (or is copied into that variable
+// by a later assignment). A shadowing ":=" in the branch, or a second buffer,
+// leaves the checks looking at the buffer from before the part was appended:
+// over-long and unstorable parts are accepted.
+func c11ChecksSeeTheEnforcedBuffer(c *cx, id string) {
+	n := 0
+	for _, name := range []string{"New", "JID.WithLocal", "JID.WithResource"} {
+		f := c.fn(id, "jid", name)
+		if f == nil {
+			continue
+		}
+		rootVar := func(e ast.Expr) *types.Var {
+			for {
+				switch x := ast.Unparen(e).(type) {
+				case *ast.SliceExpr:
+					e = x.X
+				case *ast.Ident:
+					v, _ := f.Info().ObjectOf(x).(*types.Var)
+					return v
+				default:
+					return nil
+				}
+			}
+		}
+		checked := map[*types.Var]bool{}
+		for _, cl := range f.AllCalls() {
+			cid := f.CalleeID(cl)
+			if (strings.HasSuffix(cid, "jid.localChecks") || strings.HasSuffix(cid, "jid.resourceChecks")) && len(cl.Args) == 1 {
+				if v := rootVar(cl.Args[0]); v != nil {
+					checked[v] = true
+				}
+			}
+		}
+		// one step of flow: x = append(x, y...) / x = y makes y's content part of x
+		flowsTo := map[*types.Var]map[*types.Var]bool{}
+		var appends []*ast.AssignStmt
+		f.WalkBody(func(nd ast.Node) bool {
+			as, ok := nd.(*ast.AssignStmt)
+			if !ok {
+				return true
+			}
+			if len(as.Rhs) == 1 {
+				if call, ok := ast.Unparen(as.Rhs[0]).(*ast.CallExpr); ok && strings.HasPrefix(f.CalleeID(call), "golang.org/x/text/secure/precis.") && strings.HasSuffix(f.CalleeID(call), ".Append") {
+					appends = append(appends, as)
+					return true
+				}
+			}
+			for i, l := range as.Lhs {
+				if i >= len(as.Rhs) {
+					break
+				}
+				lv := rootVar(l)
+				if lv == nil {
+					continue
+				}
+				ast.Inspect(as.Rhs[i], func(x ast.Node) bool {
+					if idn, ok := x.(*ast.Ident); ok {
+						if rv, ok := f.Info().ObjectOf(idn).(*types.Var); ok && rv != lv {
+							if flowsTo[rv] == nil {
+								flowsTo[rv] = map[*types.Var]bool{}
+							}
+							flowsTo[rv][lv] = true
+						}
+					}
+					return true
+				})
+			}
+			return true
+		})
+		for _, as := range appends {
+			n++
+			v := rootVar(as.Lhs[0])
+			ok := v != nil && checked[v]
+			if v != nil && !ok {
+				for t := range flowsTo[v] {
+					if checked[t] {
+						ok = true
+					}
+				}
+			}
+			why := "the enforced part lands in a variable no *Checks call looks at"
+			if v != nil && as.Tok == token.DEFINE {
+				why = "\":=\" declares a new " + v.Name() + " in this block; the checks slice the outer buffer, which does not contain the part"
+			}
+			c.r.Check(id, f, "buffer written by the PRECIS profile", "K: the *Checks calls slice the buffer the profile appended the part to", as.Pos(), ok, why)
+		}
+	}
+	c.r.Floor(id, "PRECIS Append results in the jid constructors", n, 4)
 }
